@@ -49,7 +49,7 @@ RULE = ("E1: Blast/SVDMimo/GMDMimo on every shape 1<=Nt<=Nr<=4 (all families) an
         "(scheme, channel form, family, member, shape, block count).  "
         "E3: ONE object per scheme, every history <= depth 4 (thorough 5) over {set_channel_matrix(3 channels "
         "incl. another shape and a 1-D form), set_noise_var(None|0.0|0.5|0.01) where the scheme has it, encode, "
-        "decode, calc_linear_SINRs(0.05|2), calc_SINRs(0.05), _calc_precoder(ch), _calc_receive_filter(ch, None|0.05), invalid calls (negative noise variance, channel of a shape the scheme rejects, data length not a multiple of the layers: must raise ValueError and leave the object digest unchanged)}; in every state decode(H_cur @ encode(d)) == d when the current noise variance is 0/None, "
+        "decode, calc_linear_SINRs(0.05|2), calc_SINRs(0.05), _calc_precoder(ch), _calc_receive_filter(ch, None|0.05), invalid calls (negative noise variance, channel of a shape the scheme rejects, data length not a multiple of the layers: what they do is only recorded as outcomes; afterwards the model is re-synchronised from the channel / noise variance the object reports and the object is judged as usual)}; in every state decode(H_cur @ encode(d)) == d when the current noise variance is 0/None, "
         "encode/decode agree with a freshly built object of the current (channel, noise_var), Blast/MRC decode "
         "equals sqrt(Nt) W_MMSE(H_cur, noise_cur) y from the harness SVD, Nr/Nt/layers follow the current channel; "
         "Also FIVE live objects (2 Blast, GMDMimo, SVDMimo, MRC) used alternately, every sequence <= depth 3 "
@@ -491,7 +491,33 @@ class HState:
         self.ch = None          # index of the current channel (model)
         self.noise = 0.0        # current noise variance per the documented setter semantics (model)
         self.err = None
-        self.bad = None         # (event, what went wrong) of the first mishandled invalid call
+        self.Hrep = None        # channel REPORTED by the object after an invalid call, when it is not chans[ch]
+        self.invalid = []       # outcomes of the invalid calls of this history (never judged as such)
+
+
+def cur_H(scheme, st):
+    """current channel of the model as a 2-D array, or None"""
+    if st.Hrep is not None:
+        return st.Hrep
+    if st.ch is None:
+        return None
+    return as2d(scheme, hist_channels(scheme)[st.ch])
+
+
+def resync_from_reported_state(scheme, st):
+    """tools/INVALID_CALL_POLICY.md: after an invalid call the model is re-synchronised from the state the
+    object reports (the channel and noise variance it holds; pyphysim has no getters, the attributes
+    `_channel` / `_noise_var` are what Nr / Nt / decode read)"""
+    rep_ch = getattr(st.obj, "_channel", None)
+    model = cur_H(scheme, st)
+    if rep_ch is None:
+        st.ch, st.Hrep = None, None
+    elif model is None or np.shape(rep_ch) != model.shape or not np.array_equal(rep_ch, model):
+        st.Hrep = np.array(rep_ch)
+    if scheme in HAS_NOISE:
+        nv = getattr(st.obj, "_noise_var", 0.0)
+        # documented: "If noise_var is non-positive then the Zero-Force filter will be used"
+        st.noise = nv if (nv is not None and nv > 0) else 0.0
 
 
 def hist_layers(scheme, H2):
@@ -513,7 +539,7 @@ def hist_build(scheme, hist):
                 st.ch = ev[1]
             elif ev[0] == "chan":
                 st.obj.set_channel_matrix(np.array(chans[ev[1]]))
-                st.ch = ev[1]
+                st.ch, st.Hrep = ev[1], None
             elif ev[0] == "noise":
                 st.obj.set_noise_var(ev[1])
                 st.noise = 0.0 if ev[1] is None else ev[1]
@@ -525,16 +551,13 @@ def hist_build(scheme, hist):
                     elif ev[0] == "bad_chan":       # MRT needs Nr == 1, Alamouti needs Nt == 2
                         st.obj.set_channel_matrix(F.generic(5, (2, 3), True, tag=42))
                     else:                           # length not a multiple of the layers
-                        st.obj.encode(data_vec(as2d(scheme, chans[st.ch]).shape[1] + 1))
-                    what = "no exception"
-                except ValueError:
-                    what = None
-                except Exception as e:  # noqa
-                    what = "raised %s instead of ValueError" % type(e).__name__
-                if what is None and bfs.digest(st.obj.__dict__, 12) != before:
-                    what = "object changed by the rejected call"
-                if what and st.bad is None:
-                    st.bad = (ev[0], what)
+                        st.obj.encode(data_vec(hist_layers(scheme, cur_H(scheme, st)) + 1))
+                    how = "accepted"
+                except Exception as e:  # noqa  - an invalid call is free to raise anything (policy, item 1)
+                    how = "raised:" + type(e).__name__
+                changed = bfs.digest(st.obj.__dict__, 12) != before
+                st.invalid.append((ev[0], how, "object_changed" if changed else "object_unchanged"))
+                resync_from_reported_state(scheme, st)
             elif ev[0] == "sinr_lin":
                 st.obj.calc_linear_SINRs(ev[1])
             elif ev[0] == "sinr_db":
@@ -544,7 +567,7 @@ def hist_build(scheme, hist):
             elif ev[0] == "recvfilter":
                 st.obj._calc_receive_filter(st.obj._channel, ev[1])
             else:
-                H2 = as2d(scheme, chans[st.ch])
+                H2 = cur_H(scheme, st)
                 d = hist_data(scheme, H2)
                 x = st.obj.encode(d)
                 if ev[0] == "decode":
@@ -557,12 +580,14 @@ def hist_build(scheme, hist):
 def hist_enabled(scheme, hist, st):
     if st.err is not None:
         return []
-    if st.ch is None:
+    if cur_H(scheme, st) is None:
         return [e for e in hist_events(scheme) if e[0] in ("chan", "noise", "bad_noise", "bad_chan")]
     return hist_events(scheme)
 
 
-AFTER = {"noise": "after_set_noise_var", "chan": "after_set_channel_matrix",
+AFTER = {"bad_noise": "after_invalid_call|set_noise_var(-1)", "bad_chan": "after_invalid_call|set_channel_matrix(rejected shape)",
+         "bad_encode": "after_invalid_call|encode(length not multiple of layers)",
+         "noise": "after_set_noise_var", "chan": "after_set_channel_matrix",
          "sinr_lin": "after_calc_linear_SINRs", "sinr_db": "after_calc_SINRs",
          "precoder": "after__calc_precoder", "recvfilter": "after__calc_receive_filter"}
 
@@ -583,17 +608,16 @@ def hist_invariant(chk, scheme, hist, st):
         chk.fail((scheme, "history", "exception", type(st.err).__name__, last_mutator(hist[:-1])), case,
                  observed="%s: %s" % (type(st.err).__name__, st.err), expected="no exception")
         return
-    if st.bad is not None:
-        chk.fail((scheme, "history", "error_path", st.bad[0], st.bad[1]), case, observed=st.bad[1],
-                 expected="ValueError and an unchanged object")
-    if st.ch is None:
+    for inv in st.invalid:                  # recorded, never judged (policy item 1)
+        chk.outcome("invalid_call", (scheme,) + inv)
+        chk.count("invalid_calls_" + inv[1].split(":")[0])
+    if cur_H(scheme, st) is None:
         return
     when = last_mutator(hist)
-    chk.outcome("history_config", (scheme, st.ch, st.noise))
+    chk.outcome("history_config", (scheme, st.ch if st.Hrep is None else "reported", st.noise))
     with chk.guard((scheme, "history", when), case):
         obj = st.obj
-        chans = hist_channels(scheme)
-        H2 = as2d(scheme, chans[st.ch])
+        H2 = cur_H(scheme, st)          # channel of the model = last valid set, or the REPORTED one
         nr, nt = H2.shape
         kappa = 1.0 if scheme in ("Alamouti", "MRT") else F.cond(H2)
         layers = hist_layers(scheme, H2)
@@ -605,10 +629,20 @@ def hist_invariant(chk, scheme, hist, st):
         # the object under test is used BEFORE the reference object exists (creating / configuring the
         # fresh object must not be able to repair shared state)
         x = np.asarray(obj.encode(d))
+        if x.ndim != 2 or x.shape[0] != nt:
+            chk.fail((scheme, "history", "encode_rows_differ_from_Nt_of_held_channel", when), case,
+                     observed=x.shape, expected="(%d, uses): the object holds a %s channel" % (nt, H2.shape))
+            return
         y = H2 @ x
         r = np.asarray(obj.decode(y))
-        # fresh object of the CURRENT configuration (differential reference)
-        fresh = getattr(M, scheme)(np.array(chans[st.ch]))
+        # fresh object put into the CURRENT (after an invalid call: reported) configuration through valid calls
+        try:
+            fresh = getattr(M, scheme)(np.array(H2 if st.Hrep is not None else hist_channels(scheme)[st.ch]))
+        except ValueError as e:
+            chk.fail((scheme, "history", when, "reported_channel_is_not_a_valid_configuration"), case,
+                     observed="the object holds a %s channel that its own setter rejects (%s)" % (H2.shape, e),
+                     expected="a channel the scheme accepts")
+            return
         if scheme in HAS_NOISE:
             fresh.set_noise_var(st.noise)
         xf = np.asarray(fresh.encode(d))
@@ -653,6 +687,7 @@ def run_histories(chk, depth):
                     enabled=lambda h, st, sc=scheme: hist_enabled(sc, h, st),
                     invariant=lambda h, st, sc=scheme: hist_invariant(chk, sc, h, st),
                     canon=lambda h, st, sc=scheme: (sc, st.ch, st.noise, st.err is None,
+                                                    bfs.digest(st.Hrep, 9),
                                                     bfs.digest(st.obj.__dict__ if st.obj is not None else None, 9)),
                     max_depth=depth, label="hist-" + scheme)
         b.run([(("new", 0),), (("new", None),)])
